@@ -40,6 +40,11 @@ cfgs = {
  "C05": {"functions": [a for a in acc if "Acknowledgement" in a or "Commitment" in a] + core + ms[:2] + cw[:1] + rel[2:], "inventory": [inv_writers, inv_del]},
  "C06": {"functions": rel + ms + tss + m(PK, "Keeper", ["CallPacket", "RecvPacket", "AcknowledgePacket"]) + cw[:1] + aggcalls, "inventory": [inv_apply, inv_pkcall, inv_callpacket, inv_aggcall]},
 }
+RV = ["x/rvesting/types.validatePerBlockReward", "x/rvesting/types.(*Params).validate", "x/rvesting/types.ValidateGenesis", "x/rvesting/keeper.(Keeper).InitGenesis", "x/rvesting/module.BeginBlocker"]
+cfgs["C20"] = {"functions": ["x/rvesting/types.validatePerBlockReward", "x/rvesting/types.(*Params).validate", "x/rvesting/module.BeginBlocker"],
+  "assumptions": ["bank.SendCoinsFromModuleToModule / GetBalance semantics (axioms/bank_rvesting.axm); both module accounts exist (app.go maccPerms); pool and fee-collector addresses differ; params stored for x/rvesting passed validatePerBlockReward (SetParamSet / param-change validation run the validator; its contract is proved)"]}
+cfgs["C15"] = {"functions": RV,
+  "assumptions": ["SDK: gov runs a proposal handler once at submission (dry-run) and in EndBlock without recover; SetParamSet panics unless each field validator passes"]}
 for k, v in cfgs.items():
     v["id"] = k
     # preserve hand-edited extra keys
